@@ -2,6 +2,7 @@ package props
 
 import (
 	"fmt"
+	"math"
 	"math/big"
 	"math/rand"
 	"strconv"
@@ -32,7 +33,7 @@ var c18 = core.Register(&core.Prop{
 				out = append(out, "coverage floor: "+b+" never checked")
 			}
 		}
-		for _, k := range []string{"ties", "negative_ties", "law:sqrt-square", "law:exp-ln", "law:ln-exp", "law:log-pow10", "tofloat_nan_cases", "through_locals", "bitop_exponent_spellings", "tofloat_long_texts", "maxmin_wide_neighbours"} {
+		for _, k := range []string{"ties", "negative_ties", "law:sqrt-square", "law:exp-ln", "law:ln-exp", "law:log-pow10", "tofloat_nan_cases", "through_locals", "bitop_exponent_spellings", "tofloat_long_texts", "maxmin_wide_neighbours", "zero_cases", "zeros_with_sign"} {
 			if c[k] == 0 {
 				out = append(out, "coverage floor: no "+k)
 			}
@@ -507,6 +508,14 @@ func arg15(r *rand.Rand) string {
 	case 5: // even/odd ties
 		dig = strconv.Itoa(r.Intn(12)) + "5"
 		exp = -1
+	case 6: // many digits far below one, or far above the digits a float64 holds
+		if n < 10 {
+			dig = digits(r, 10+r.Intn(6))
+		}
+		exp = -(16 + r.Intn(30))
+		if r.Intn(4) == 0 {
+			exp = 16 + r.Intn(30)
+		}
 	}
 	return spell(r, r.Intn(2) == 0, dig, exp)
 }
@@ -526,6 +535,65 @@ func spellExp(dig string, e int) string {
 	return dig + "e" + strconv.Itoa(e)
 }
 
+// ZeroCase: a function applied to an expression whose value is zero (possibly a zero that carries a sign: the
+// result of rounding a small negative number, of 0 times a negative number, a float64 -0.0 in the data).
+type ZeroCase struct {
+	Fn   string `json:"fn"`
+	Zero string `json:"zero"`
+}
+
+var c18ZeroData = map[string]interface{}{"nz": math.Copysign(0, -1), "nz32": float32(math.Copysign(0, -1)), "qty": 0, "dx": -3.25}
+
+// a zero is zero: a function of it is the function of the literal 0, whatever computation produced it
+var c18Zero = core.Mon(c18, "zero-is-zero", func(w *core.W, c *ZeroCase) {
+	w.Count("zero_cases")
+	w.Nontrivial(c.Fn + "|" + c.Zero)
+	src := "[" + c.Zero + ", " + c.Fn + "(" + c.Zero + "), " + c.Fn + "(0)]"
+	if c.Fn == "~" || c.Fn == "-" {
+		src = "[" + c.Zero + ", " + c.Fn + "(" + c.Zero + "), " + c.Fn + "0]"
+	}
+	v, err, panicked, pv := resolveIn(c18ZeroData, src)
+	w.Eval(1)
+	if panicked || err != nil {
+		w.Violation("zero-is-zero", "C18/zero-error:"+c.Fn, c, "three values", fmt.Sprint(pv, err), src)
+		return
+	}
+	arr, _ := v.([]interface{})
+	if len(arr) != 3 {
+		w.Violation("zero-is-zero", "C18/zero-shape:"+c.Fn, c, "three values", show(v), src)
+		return
+	}
+	z, ok := arr[0].(*decimal.Big)
+	if !ok || z == nil || z.Sign() != 0 || !z.IsFinite() {
+		w.Violation("zero-is-zero", "C18/not-zero", c, "0", show(arr[0]), c.Zero+" is zero")
+		return
+	}
+	if z.Signbit() {
+		w.Count("zeros_with_sign")
+	}
+	a, oka := arr[1].(*decimal.Big)
+	b, okb := arr[2].(*decimal.Big)
+	if oka != okb {
+		w.Violation("zero-is-zero", "C18/zero-differs:"+c.Fn, c, show(arr[2]), show(arr[1]), src)
+		return
+	}
+	if !oka {
+		sa, sb := fmt.Sprint(arr[1]), fmt.Sprint(arr[2])
+		da, pa := ref.ParseDec(sa)
+		db, pb := ref.ParseDec(sb)
+		if pa && pb && sameNumber(da, db) {
+			return // toString of a zero reads back as zero, whatever its exponent
+		}
+		if strings.TrimPrefix(sa, "-") != strings.TrimPrefix(sb, "-") {
+			w.Violation("zero-is-zero", "C18/zero-differs:"+c.Fn, c, show(arr[2]), show(arr[1]), src)
+		}
+		return
+	}
+	if !sameNumber(obs.DecOf(a), obs.DecOf(b)) {
+		w.Violation("zero-is-zero", "C18/zero-differs:"+c.Fn, c, show(b), show(a), fmt.Sprintf("%s: %s is zero, yet %s of it is not %s of 0", src, c.Zero, c.Fn, c.Fn))
+	}
+})
+
 func init() { c18.Run = runC18 }
 
 func runC18(w *core.W) {
@@ -536,6 +604,14 @@ func runC18(w *core.W) {
 		idx++
 		if idx%2503 == 0 {
 			w.Sample(c.Fn, c.Fn+"("+strings.Join(c.Args, ", ")+")")
+		}
+	}
+	zi := 0
+	for _, z := range []string{"0", "-0", "0.0", "-0.0", "0e5", "round(-0.4)", "roundBank(-0.5)", "toInt(-0.5)", "toInt('-0.9')", "ceil(-0.3)", "0 * -3", "-3 * 0", "qty * dx", "0 / -7", "nz", "nz32", "-nz", "nz * 5", "nz + nz", "toFloat('-0')", "toFloat('-0.000')", "min(0, nz)", "max(nz, -0)", "-(1 - 1)", "abs(nz)", "0 % -5", "-5 % 5"} {
+		for _, fn := range []string{"abs", "ceil", "floor", "round", "roundBank", "sqrt", "exp", "ln", "log", "toInt", "toFloat", "toString", "finite", "~", "-", "max", "min"} {
+			if zi++; w.Mine(zi) {
+				c18Zero(w, &ZeroCase{Fn: fn, Zero: z})
+			}
 		}
 	}
 	// fixed edge cases for the rounding family
